@@ -274,3 +274,45 @@ func H_C16_fn_builtin_names() {
 	vCheckAgainstRef("C16 function named like a built-in rule", err, r)
 	vReach("end")
 }
+
+// a rule set registered for a struct type applies to that type only: not to a defined type with the same
+// underlying struct, not to a struct that embeds it, not to a pointer-to-pointer alias of another type
+type vOInTwin vOIn // same fields and tags, another type
+
+type vOEmbeds struct {
+	vOIn
+	A string `valid:"r3"`
+}
+
+type vOTwins struct {
+	In   vOIn      `valid:"exist"`
+	Twin vOInTwin  `valid:"exist"`
+	PT   *vOInTwin `valid:"exist"`
+	Emb  vOEmbeds  `valid:"required"`
+}
+
+func H_C16_scope_other_types() {
+	vUNoFail = true
+	known := vGlobalRules()
+	o := &vOTwins{In: vOIn{A: vStr("In.A"), B: "b"}, Twin: vOInTwin{A: vStr("Twin.A"), B: "b"}, PT: &vOInTwin{A: "a", B: vStr("PT.B")}, Emb: vOEmbeds{A: vStr("Emb.A")}}
+	rm := vC16RMs[2+vndChoice("rm", 3)]
+	vs := NewVStruct()
+	r := vNewRef()
+	r.global = known
+	r.scoped = map[reflect.Type]RM{}
+	switch vndChoice("for", 3) {
+	case 0:
+		vs.SetRule(vCopyRM(rm), vOIn{})
+		r.scoped[reflect.TypeOf(vOIn{})] = rm
+	case 1:
+		vs.SetRule(vCopyRM(rm), &vOInTwin{})
+		r.scoped[reflect.TypeOf(vOInTwin{})] = rm
+	case 2:
+		vs.SetRule(vCopyRM(rm), vOEmbeds{})
+		r.scoped[reflect.TypeOf(vOEmbeds{})] = rm
+	}
+	err := vs.Valid(o)
+	r.top(o)
+	vCheckAgainstRef("C16 scoped rule set vs look-alike types", err, r)
+	vReach("end")
+}
